@@ -84,14 +84,14 @@ pub fn front(line: &str) -> String {
         use pest_meta::parser::{self, Rule as MR};
         let pairs = match parser::parse(MR::grammar_rules, &text) {
             Ok(p) => p,
-            Err(e) => return format!("ERR parse {}", hex(&format!("{e}"))),
+            Err(e) => return format!("ERR parse 1 {}", hex(&format!("{e}"))),
         };
         if let Err(es) = pest_meta::validator::validate_pairs(pairs.clone()) {
-            return format!("ERR validate {} {}", es.len(), hex(&format!("{}", es[0])));
+            return format!("ERR validate {} {}", es.len(), es.iter().map(|e| hex(&format!("{e}"))).collect::<Vec<_>>().join(","));
         }
         let ast = match parser::consume_rules(pairs) {
             Ok(a) => a,
-            Err(es) => return format!("ERR consume {} {}", es.len(), hex(&format!("{}", es[0]))),
+            Err(es) => return format!("ERR consume {} {}", es.len(), es.iter().map(|e| hex(&format!("{e}"))).collect::<Vec<_>>().join(",")),
         };
         let mut out = vec![format!("ast={}", rules(&ast))];
         #[cfg(pest_parser_pest_verif)]
@@ -117,12 +117,13 @@ pub fn front(line: &str) -> String {
 // ---------------------------------------------------------------- reading optimized rules back (for VM runs on a given stage)
 use crate::prog::Rd;
 
-/// request: `<detail> <limit> <input-hex> <start-rule> <grammar-hex>`; reply in the `state=` format of prog.rs
+/// request: `<detail> <limit> <input-hex>[+<input-hex>..] <start-rule> <grammar-hex>`; reply in the `state=` format of prog.rs
 pub fn vm(line: &str) -> String {
     let mut it = line.splitn(5, ' ');
     let detail = it.next().unwrap() == "1";
     let limit: usize = it.next().unwrap().parse().unwrap();
-    let input = unhex(it.next().unwrap());
+    // `<hex>+<hex>+..`: the texts are parsed one after the other on the same Vm; the reply describes the last parse
+    let inputs: Vec<String> = it.next().unwrap().split('+').map(unhex).collect();
     let start = it.next().unwrap().to_string();
     let text = unhex(it.next().unwrap());
     pest::set_error_detail(detail);
@@ -133,7 +134,10 @@ pub fn vm(line: &str) -> String {
             Err(es) => return format!("GRAMMAR-ERR {}", es.len()),
         };
         let vm = pest_vm::Vm::new(rules);
-        fmt_result(vm.parse(&start, &input))
+        for earlier in &inputs[..inputs.len() - 1] {
+            let _ = vm.parse(&start, earlier);
+        }
+        fmt_result(vm.parse(&start, &inputs[inputs.len() - 1]))
     });
     r.unwrap_or_else(|m| format!("PANIC {}", m.replace('\n', " ")))
 }
@@ -253,6 +257,26 @@ pub fn linecol(line: &str) -> String {
         let a = pairs.peek().unwrap().line_col();
         let b = pest::Position::new(&text, pos).unwrap().line_col();
         format!("{}:{} {}:{}", a.0, a.1, b.0, b.1)
+    })
+    .unwrap_or_else(|m| format!("PANIC {}", m.replace('\n', " ")))
+}
+
+/// request: `<start> <end|-> <text-hex>`; reply `OK <rendered-hex>` for `Error::new_from_pos` (end = `-`) / `Error::new_from_span`
+/// with a CustomError "boom", rendered through `Display`; `NOPOS` when the offsets are rejected
+pub fn render(line: &str) -> String {
+    let mut it = line.split(' ');
+    let s: usize = it.next().unwrap().parse().unwrap();
+    let e = it.next().unwrap().to_string();
+    let text = unhex(it.next().unwrap_or("").trim());
+    guarded(move || {
+        use pest::error::{Error, ErrorVariant};
+        let var = ErrorVariant::<u8>::CustomError { message: "boom".to_string() };
+        let err = if e == "-" {
+            match pest::Position::new(&text, s) { Some(p) => Error::new_from_pos(var, p), None => return "NOPOS".to_string() }
+        } else {
+            match pest::Span::new(&text, s, e.parse().unwrap()) { Some(sp) => Error::new_from_span(var, sp), None => return "NOPOS".to_string() }
+        };
+        format!("OK {}", hex(&err.to_string()))
     })
     .unwrap_or_else(|m| format!("PANIC {}", m.replace('\n', " ")))
 }
